@@ -29,7 +29,7 @@ def run(ctx):
     nvec = pure_part(ctx)
     ctx.cov_extra_eval = nvec
     return tc.run_topic_check(
-        ctx, "C04", kinds=KINDS, maxseq=5, nusers=3, chan=True,
+        ctx, "C04", kinds=KINDS, maxseq=5, nusers=3, chan=True, root=True,
         want=["-", "JRW", "JRWD", "JW"], given=["-", "JRW", "JRWD", "JRWPASD"],
         u1_quick={"want": ["-", "JRWD"], "given": ["-", "JRW", "JRWD"], "kinds": ["NewGrp", "Sub", "SetOther", "Pub", "DelMsg"], "maxseq": 2, "nusers": 2,
                   "delranges": [[(1, 0)], [(1, 3)], [(2, 0), (1, 0)]], "maxdel": 2},
